@@ -26,6 +26,7 @@ static void lagrange4(const LD xs[4], LD z, LD w[4])
 static Outcome runInterp(const KV& c)
 {
     Outcome o;
+    setVectorScaleExp(c, o);
     ProblemSpec p     = ProblemSpec::get(c);
     const int threads = (int)c.getI("threads");
     const bool includeKnown = c.getI("include_known", 0) != 0;
@@ -451,6 +452,7 @@ static KV genCase()
         c.putI("level_depth", rweighted({3, 1, 1}));
         c.putI("x_kind", rweighted({4, 3, 1, 1, 1, 1}));
         c.putU("x_seed", rseed());
+        c.putI("vec_scale_exp", rpick({0, 0, 0, 0, 0, 0, -300, -100, 100, 300}));
         c.putU("poly_seed", rseed());
     }
     else {
